@@ -15,6 +15,7 @@ import (
 	"strings"
 	"sync"
 	"testing"
+	"time"
 
 	corev1 "k8s.io/api/core/v1"
 	"k8s.io/apimachinery/pkg/api/resource"
@@ -147,7 +148,7 @@ func c19PodStr(p *corev1.Pod) string {
 			parts = append(parts, string(n)+"="+q.String())
 		}
 	}
-	return fmt.Sprintf("%s{quota=%s node=%q req=%s}", p.Name, c19Q(p), p.Spec.NodeName, strings.Join(parts, ","))
+	return fmt.Sprintf("%s{quota=%s node=%q terminating=%v req=%s}", p.Name, c19Q(p), p.Spec.NodeName, p.DeletionTimestamp != nil, strings.Join(parts, ","))
 }
 
 func c19Unbound(p *corev1.Pod) *corev1.Pod {
@@ -343,6 +344,7 @@ func TestVerifC19QuotaPluginReplay(t *testing.T) {
 		dead := false
 		sawDup, sawParked, sawParkedBound, sawTreePodBound, sawTreeParkedBound, sawContinuation, sawQuotaAfterPods, sawQuotaAfterBoundTreePod, sawMigrated := false, false, false, false, false, false, false, false, false
 		maxBound := 0
+		sawTerminating := false
 
 		sorted := func(pred func(*corev1.Pod) bool) []types.UID {
 			var out []types.UID
@@ -646,6 +648,28 @@ func TestVerifC19QuotaPluginReplay(t *testing.T) {
 				hist = append(hist, "delete "+persisted[u].Name)
 				delete(persisted, u)
 			},
+			// A bound pod is deleted gracefully: it gets a deletionTimestamp and keeps running (phase unchanged) until the
+			// kubelet is done, so it stays in the informer and keeps its share (default feature gates).
+			"gracefulDelete": func(t *rapid.T) {
+				if dead {
+					return
+				}
+				uids := sorted(func(p *corev1.Pod) bool { return p.Spec.NodeName != "" && p.DeletionTimestamp == nil })
+				if len(uids) == 0 {
+					t.Skip("nothing running")
+				}
+				u := rapid.SampledFrom(uids).Draw(t, "uid")
+				flush(u)
+				old := persisted[u]
+				n := old.DeepCopy()
+				ts := metav1.NewTime(time.Unix(1700000000, 0).UTC()) // fixed stamp, nothing reads the wall clock
+				n.DeletionTimestamp = &ts
+				bump(n)
+				live.OnPodUpdate(old.DeepCopy(), n.DeepCopy())
+				persisted[u] = n
+				sawTerminating = true
+				hist = append(hist, "graceful delete of "+n.Name+": terminating, still bound")
+			},
 			"touch": func(t *rapid.T) {
 				if dead {
 					return
@@ -672,6 +696,7 @@ func TestVerifC19QuotaPluginReplay(t *testing.T) {
 			},
 		})
 		c.ClassIf(sawDup, "duplicate-or-noop-event")
+		c.ClassIf(sawTerminating, "bound-pod-terminating(deletionTimestamp)-persisted")
 		c.ClassIf(sawParked, "pod-created-before-its-quota(parked-in-default)")
 		c.ClassIf(sawParkedBound, "pod-bound-while-parked")
 		c.ClassIf(sawTreePodBound, "bound-pod-of-a-tree-quota")
